@@ -115,7 +115,9 @@ def obsOf1 (ws : List String) (obs : String) : List Obs :=
   match ws with
   | ["batch", n, _, _, _, hard] =>
     let b := nat! ((field ows "b").getD "0")
-    .submitted b (nat! n) :: (if hard == "now" then [Obs.hardPassed b] else []) ++ vs
+    .submitted b (nat! n) :: (if hard == "now" then [Obs.hardPassed b] else []) ++
+      (if ws.getD 4 "0" == "1" then [Obs.progBatch b] else []) ++ vs
+  | ["wake", b, g] => .wake (nat! b) (nat! g) :: vs
   | ["elapse", b] => [.hardPassed (nat! b)]
   | ["accept", p] =>
     [.dispatched (nat! p) (nat! ((field ows "j").getD "0")) (parseReq ((field ows "r").getD "0.0"))]
@@ -155,7 +157,8 @@ def realObs (ws : List String) (obs : String) : Option RObs :=
     let v := (field ows "v").getD "HANG"
     let (fin, n) := parseFrac ((field ows "fin").getD "0/0")
     let kind := (field ws "kind").getD "later"
-    some (.batch (nat! i) kind (if v == "HANG" then none else some (parseVerdict v)) fin n)
+    some (.batch (nat! i) kind (if v == "HANG" then none else some (parseVerdict v)) fin n
+      (nat! ((field ows "gap").getD "0")) (nat! ((field ows "pt").getD "0")))
   | ["rstop"] => some (.stop (obs == "ok"))
   | ["rpeer"] => some .peerNotTaken
   | ["rfinal"] =>
